@@ -21,16 +21,18 @@ open Ytk.TableT
 /-- (i) The `switch mod.Type` of diff.applySingle as regenerated from diff/apply.go IS the action table
     of the model (same modification types, same parent walk and final statement for each, nothing for any
     other type); the statements before the switch, the two parent walks and applyNonListItem /
-    applyListItem are the model's; and `applySingle` equals the lookup in that table, its Add / Change
+    applyListItem are the model's; and `applySingle` equals the function RUN FROM the regenerated case
+    table (`applySingleBy`) and the lookup in the model's table, its Add / Change
     walk sends a component with index groups through applyListItem and any other through
     applyNonListItem, its Delete walk descends only through existing containers — on ALL inputs. -/
 theorem apply_table_matches_model :
+    Generated.applyActions = applyRowsM ∧
     pairs Generated.applyActions = applyTable.map (fun p => (p.1.name, p.2.goName)) ∧
-    Generated.applyActions.map (·.const) = applyTable.map (fun p => (ModType.goConst p.1).1) ∧
     Generated.applyActionsDefault = "nothing" ∧
     Generated.applyPrelude = applyPreludeM ∧ Generated.applyWalks = applyWalksM ∧
     Generated.applyNonListItemSteps = applyNonListItemStepsM ∧
     Generated.applyListItemSteps = applyListItemStepsM ∧
+    (∀ kvs m, applySingle kvs m = applySingleBy Generated.applyActions kvs m) ∧
     (∀ kvs m, applySingle kvs m =
       match applyTable.lookup m.ty with
       | some a => a.run kvs m
@@ -44,10 +46,14 @@ theorem apply_table_matches_model :
       match child kvs c with
       | some (.cont sub) => add kvs c (.cont (applyDelSegs sub (c2 :: rest)))
       | _ => kvs) ∧
-    (∀ kvs last, applyDelSegs kvs [last] = remove kvs last) :=
-  ⟨by decide +kernel, by decide +kernel, by decide +kernel, by decide +kernel, by decide +kernel,
-   by decide +kernel, by decide +kernel, applySingle_eq_table, applyAddSegs_step, applyAddSegs_last,
-   applyDelSegs_step, applyDelSegs_last⟩
+    (∀ kvs last, applyDelSegs kvs [last] = remove kvs last) := by
+  have h1 : Generated.applyActions = applyRowsM := by decide +kernel
+  refine ⟨h1, by decide +kernel, by decide +kernel, by decide +kernel, by decide +kernel,
+    by decide +kernel, by decide +kernel, ?_, applySingle_eq_table, applyAddSegs_step, applyAddSegs_last,
+    applyDelSegs_step, applyDelSegs_last⟩
+  intro kvs m
+  rw [h1]
+  exact applySingle_eq_rows kvs m
 
 /-- the arms of a regenerated parent walk -/
 def walkG (name : String) : List CondArm := (Generated.applyWalks.lookup name).getD []
